@@ -144,19 +144,24 @@ package blobstore
 
 //@ func (*suspendingBlobAccess).Put
 //@   props C11
+//@   at call Put#1 assert the-clock-is-suspended-while-storage-is-asked: suspended(ba.suspendable) == 1
 //@   ensures balanced: suspended(ba.suspendable) == 0
 //@ func (*suspendingBlobAccess).FindMissing
 //@   props C11
+//@   at call FindMissing#1 assert the-clock-is-suspended-while-storage-is-asked: suspended(ba.suspendable) == 1
 //@   ensures balanced: suspended(ba.suspendable) == 0
 //@ func (*suspendingBlobAccess).GetCapabilities
 //@   props C11
+//@   at call GetCapabilities#1 assert the-clock-is-suspended-while-storage-is-asked: suspended(ba.suspendable) == 1
 //@   ensures balanced: suspended(ba.suspendable) == 0
 //@ func (*suspendingBlobAccess).Get
 //@   props C11
+//@   at call Get#1 assert the-clock-is-suspended-while-storage-is-asked: suspended(ba.suspendable) == 1
 //@   ensures resume-handed-to-buffer: suspended(ba.suspendable) == 1
 //@   at call WithErrorHandler#1 assert handler-resumes-the-same-clock: as(arg1, *resumingErrorHandler).suspendable == ba.suspendable
 //@ func (*suspendingBlobAccess).GetFromComposite
 //@   props C11
+//@   at call GetFromComposite#1 assert the-clock-is-suspended-while-storage-is-asked: suspended(ba.suspendable) == 1
 //@   ensures resume-handed-to-buffer: suspended(ba.suspendable) == 1
 //@   at call WithErrorHandler#1 assert handler-resumes-the-same-clock: as(arg1, *resumingErrorHandler).suspendable == ba.suspendable
 //@ func (*resumingErrorHandler).Done
